@@ -214,9 +214,63 @@ def _worker_chunk(args):
             if not (res.get("violations") or res.get("harness_error") or i in want_samples):
                 res.pop("trace", None)
             out.append(res)
-        return out
+        return compact(out)
     finally:
         faulthandler.cancel_dump_traceback_later()
+
+
+def compact(results):
+    """
+    Keep full results only where they are needed (violations, harness errors,
+    retained sample traces); everything else is folded into one summary record
+    so that millions of runs do not have to be held in memory.
+    """
+    keep = []
+    summ = {"summary": True, "n": 0, "steps": 0, "faults": {}, "probes": {}, "opcount": {},
+            "abstract": set(), "digests": [], "pairs": set(), "lifetimes": 0,
+            "first": None, "last": None}
+    for r in results:
+        if r.get("violations") or r.get("harness_error") or r.get("trace") is not None:
+            keep.append(r)
+        if r.get("harness_error"):
+            continue
+        summ["n"] += 1
+        summ["steps"] += r.get("steps", 0)
+        for key in ("faults", "probes", "opcount"):
+            for k, n in r.get(key, {}).items():
+                summ[key][k] = summ[key].get(k, 0) + n
+        if r.get("nontrivial"):
+            summ["abstract"].add(r.get("abstract"))
+        summ["digests"].append((r["i"], str(r.get("digest"))))
+        for a, b in r.get("pairs", []):
+            summ["pairs"].add((tuple(a), tuple(b)))
+        if summ["first"] is None or r["i"] < summ["first"][0]:
+            summ["first"] = (r["i"], r["seed"])
+        if summ["last"] is None or r["i"] > summ["last"][0]:
+            summ["last"] = (r["i"], r["seed"])
+    return keep, summ
+
+
+def merge_summary(total, summ):
+    if total is None:
+        return summ
+    total["n"] += summ["n"]
+    total["steps"] += summ["steps"]
+    for key in ("faults", "probes", "opcount"):
+        for k, n in summ[key].items():
+            total[key][k] = total[key].get(k, 0) + n
+    total["abstract"] |= summ["abstract"]
+    total["pairs"] |= summ["pairs"]
+    h = hashlib.sha256()
+    for i, d in sorted(summ["digests"]):
+        h.update(d.encode())
+    total.setdefault("chunk_digests", []).append((min(i for i, d in summ["digests"]) if summ["digests"] else -1,
+                                                  h.hexdigest()))
+    total["digests"] = []
+    for key, pick in (("first", min), ("last", max)):
+        if summ[key] is not None:
+            total[key] = summ[key] if total[key] is None else pick(total[key], summ[key])
+    return total
 
 
 def fan_out(engine_name, prop, verif_seed, nruns, tier, workers, budget_s,
@@ -236,6 +290,7 @@ def fan_out(engine_name, prop, verif_seed, nruns, tier, workers, budget_s,
         pending = {}
         it = iter(chunks)
         exhausted = False
+        total = None
 
         def submit_more():
             nonlocal exhausted
@@ -256,7 +311,12 @@ def fan_out(engine_name, prop, verif_seed, nruns, tier, workers, budget_s,
             done = next(as_completed(list(pending)))
             c = pending.pop(done)
             try:
-                results.extend(done.result())
+                keep, summ = done.result()
+                results.extend(keep)
+                total = merge_summary(total, summ) if total is not None else merge_summary(
+                    {"summary": True, "n": 0, "steps": 0, "faults": {}, "probes": {}, "opcount": {},
+                     "abstract": set(), "digests": [], "pairs": set(), "lifetimes": 0,
+                     "first": None, "last": None}, summ)
             except Exception as e:
                 harness.append(f"worker died on runs {c[0]}..{c[-1]}: {e!r}")
                 break
@@ -265,6 +325,7 @@ def fan_out(engine_name, prop, verif_seed, nruns, tier, workers, budget_s,
     for r in results:
         if r.get("harness_error"):
             harness.append(f"run {r['i']} seed {r['seed']}: {r['harness_error']}")
+    fan_out.last_summary = total
     return results, harness
 
 
@@ -443,12 +504,12 @@ def run_check(prop, engine_name, tier, nruns, extra_evidence=None):
     if extra_evidence:
         ev["coverage"].update(extra_evidence)
     if hasattr(engine, "extra_coverage"):
-        ev["coverage"].update(engine.extra_coverage(results, prop))
+        ev["coverage"].update(engine.extra_coverage(getattr(fan_out, "last_summary", None) or {}, prop))
     if not os.environ.get("VERIF_NO_EVIDENCE"):     # sensitivity experiments on scratch trees
         os.makedirs(EVIDENCE_DIR, exist_ok=True)
         with open(os.path.join(EVIDENCE_DIR, f"{prop}.json"), "w", encoding="utf-8") as f:
             json.dump(ev, f, indent=1, sort_keys=True, default=_canon_default)
-    nres = len([r for r in results if not r.get("harness_error")])
+    nres = ev["coverage"]["evaluations"]
     print(f"[dsim] {prop}: runs={nres} steps={ev['coverage']['steps']} "
           f"distinct_nontrivial={ev['coverage']['distinct_nontrivial']} "
           f"faults={ev['coverage']['faults_injected']} wall={wall:.1f}s "
@@ -465,27 +526,19 @@ def run_check(prop, engine_name, tier, nruns, extra_evidence=None):
 
 def build_evidence(prop, engine, engine_name, tier, verif_seed, results, wall,
                    known_hit, new_violations, other, harness):
-    good = [r for r in results if not r.get("harness_error")]
-    steps = sum(r.get("steps", 0) for r in good)
-    faults = {}
-    probes = {}
-    opcount = {}
-    abstract = set()
+    total = getattr(fan_out, "last_summary", None) or {
+        "n": 0, "steps": 0, "faults": {}, "probes": {}, "opcount": {}, "abstract": set(),
+        "pairs": set(), "first": None, "last": None, "chunk_digests": []}
+    n = total["n"]
     digests = hashlib.sha256()
-    for r in good:
-        for k, n in r.get("faults", {}).items():
-            faults[k] = faults.get(k, 0) + n
-        for k, n in r.get("probes", {}).items():
-            probes[k] = probes.get(k, 0) + n
-        for k, n in r.get("opcount", {}).items():
-            opcount[k] = opcount.get(k, 0) + n
-        if r.get("nontrivial"):
-            abstract.add(r.get("abstract"))
-        digests.update(str(r.get("digest")).encode())
-    samples = [r["trace"] for r in good[:3] if r.get("trace") is not None]
+    for i, d in sorted(total.get("chunk_digests", [])):
+        digests.update(d.encode())
+    samples = [r["trace"] for r in results if r.get("trace") is not None
+               and not r.get("harness_error")][:3]
     if not samples:
         samples = [{"note": "no trace retained"}]
-    zero = sorted(k for k, n in probes.items() if n == 0)
+    probes = total["probes"]
+    zero = sorted(k for k, v in probes.items() if v == 0)
     ev = {
         "property_id": prop,
         "tier": tier,
@@ -497,29 +550,29 @@ def build_evidence(prop, engine, engine_name, tier, verif_seed, results, wall,
             "sampling, not enumeration: a clean batch is evidence, not proof",
         ],
         "coverage": {
-            "evaluations": len(good),
-            "distinct_nontrivial": len(abstract),
+            "evaluations": n,
+            "distinct_nontrivial": len(total["abstract"]),
             "rule": getattr(engine, "RULE", ""),
             "samples": samples,
-            "steps": steps,
-            "runs_per_hour": int(len(good) / wall * 3600) if wall > 0 else 0,
+            "steps": total["steps"],
+            "runs_per_hour": int(n / wall * 3600) if wall > 0 else 0,
             "seeds": {"verif_seed": verif_seed,
-                      "first_run_seed": good[0]["seed"] if good else None,
-                      "last_run_seed": good[-1]["seed"] if good else None,
-                      "runs": len(good)},
+                      "first_run_seed": total["first"][1] if total["first"] else None,
+                      "last_run_seed": total["last"][1] if total["last"] else None,
+                      "runs": n},
             "simulated_time": "n/a - no clock in scope of this property; logical steps reported",
-            "faults_injected": faults,
+            "faults_injected": total["faults"],
             "probes": probes,
             "probes_stuck_at_zero": zero,
-            "op_counts": opcount,
+            "op_counts": total["opcount"],
             "batch_digest": digests.hexdigest(),
             "real_components": REAL_COMPONENTS + getattr(engine, "REAL_EXTRA", []),
             "stub_components": getattr(engine, "STUBS", []),
             "known_findings_hit": known_hit,
             "regression_traces_firing": [p for s_, n_, p, v_ in new_violations
                                          if p and os.sep + "regressions" + os.sep in p],
-            "violation_signatures": [{"sig": s, "runs": n, "replay": p, "detail": v["detail"]}
-                                     for s, n, p, v in new_violations],
+            "violation_signatures": [{"sig": s_, "runs": n_, "replay": p, "detail": v["detail"]}
+                                     for s_, n_, p, v in new_violations],
             "other_property_oracle_hits": other,
             "harness_errors": harness[:5],
         },
